@@ -39,7 +39,7 @@ def contracts():
     ensures match r { Ok(x) => json_spec::<T>(self.body@) == Some(x), Err(_) => json_spec::<T>(self.body@) is None },
 """)
     c["from_response"] = FnSpec(ret="r", sig="""
-    ensures r matches Ok(v) ==> v.body@ == response.body@ && v.headers == response.hdrs, //@C02.body_is_response_body,C03.body_is_response_body
+    ensures r matches Ok(v) ==> v.body@ == response.body@ && v.headers == response.hdrs, //@C02.body_is_response_body,C03.body_is_response_body,C07.body_is_response_body
 """)
     c["get_header"] = FnSpec(ret="r", sig="""
     ensures
@@ -110,7 +110,7 @@ def contracts():
         final(w).net.posts <= old(w).net.posts + 10, //@C08.at_most_10_transmissions,C07.every_request_is_given_up_after_a_bounded_number_of_transmissions
         final(w).net.waited <= old(w).net.waited + POST_WAIT_NS(), //@C07.the_waits_between_transmissions_are_bounded
         r is Ok ==> final(w).net.last_success && final(w).net.posts > old(w).net.posts, //@C08.ok_is_2xx
-        r matches Ok(v) ==> v.body@ == final(w).net.last_body, //@C02.body_is_response_body,C03.body_is_response_body
+        r matches Ok(v) ==> v.body@ == final(w).net.last_body, //@C02.body_is_response_body,C03.body_is_response_body,C07.body_is_response_body
 """, loops={1: "    invariant" + LOOP_NET_INV + DB_PRE + """
         roots_match(client.roots@, w.net.trust_roots), !client.insecure@,
         old(w).net.posts <= w.net.posts,
